@@ -82,6 +82,15 @@ def failedTps (all : List TP) : ProdRes → List TP
   | .err _ => all
   | .none => []
 
+/-- what the client can answer to a request without acknowledgements: nothing, failed payloads
+    (whatever is not listed was handed to its connection), or a failure -/
+def isAcks0Shape : ProdRes → Bool
+  | .none => true
+  | .responses [] => true
+  | .failed [] _ => true
+  | .err _ => true
+  | _ => false
+
 /-- does the result account for every payload of the request (C07's accounting contract)? -/
 def accounts (ps : List Payload) : ProdRes → Bool
   | .responses [] => true
@@ -101,6 +110,7 @@ structure Track where
   retryTids : List Tid := []        -- timers set while a produce result was being handled
   produced : List Sid := []         -- sends that have been in a produce request
   acct : Bool := true               -- every result so far accounted for its request
+  acct0 : Bool := true              -- … in the sense of a request without acknowledgements (acks = 0)
   stopped : Bool := false
   timersSinceReset : Nat := 0
   lastP : List (TP × List Sid) := []   -- last payload seen per topic/partition
@@ -131,11 +141,11 @@ def trackOb (e : Ev) (retry : Bool) (t : Track) : Ob → Track
              retryTids := if isCompletion e then tid :: t.retryTids else t.retryTids }
   | _ => t
 
-/-- did this step take the queue (a dispatch)?  The queue before the step plus the send made in it,
-    minus the send cancelled in it, lost a member. -/
-def dispatched (pre : Snap) (s : Step) : Bool :=
+/-- did this step take the queue (a dispatch)?  The queue before the step plus the (valid: its id is
+    the next one) send made in it, minus the send cancelled in it, lost a member. -/
+def dispatched (nextSid : Sid) (pre : Snap) (s : Step) : Bool :=
   let q := match s.ev with
-    | .send sid _ _ msgs => if msgs.isEmpty then pre.queue else pre.queue ++ [sid]
+    | .send sid _ _ msgs => if sid = nextSid ∧ msgs.isEmpty = false then pre.queue ++ [sid] else pre.queue
     | .cancel sid => pre.queue.filter (· ≠ sid)
     | .stop .. => []      -- stop cancels whatever is queued
     | _ => pre.queue
@@ -174,6 +184,7 @@ def trackEv (pre : Snap) (t : Track) (e : Ev) : Track :=
   match (if effective t e then completionOf e else none), t0.cur, t0.curRes with
   | some r, some (_, ps), none =>
     { t0 with curRes := some r, acct := t0.acct && accounts ps r,
+              acct0 := t0.acct0 && (accounts ps r || isAcks0Shape r),
               acked := ((respsOf r).filter (·.error = 0)).map (·.tp) ++ t0.acked }
   | _, _, _ => t0
 
@@ -183,7 +194,7 @@ def track (pre : Snap) (t : Track) (s : Step) : Track :=
   let t3 : Track := match s.ev with
     | .timer tid => { t2 with retryTids := t2.retryTids.filter (· ≠ tid) }
     | _ => t2
-  if s.post.idle || dispatched pre s then { t3 with timersSinceReset := 0 } else t3
+  if s.post.idle || dispatched t.nextSid pre s then { t3 with timersSinceReset := 0 } else t3
 
 /-- check every observation of a step against the summary as updated by the observations before it -/
 def checkObs (chk : Track → Ob → Bool) (e : Ev) (retry : Bool) : Track → List Ob → Bool
